@@ -72,6 +72,7 @@ def run(ctx):
     r201b(ctx)
     r202(ctx)
     r203(ctx)
+    r206(ctx)
     from . import callsigs as _cs2
     _cs2.scratch_buffer_rule(ctx, 'R20.5')
     from . import callsigs as _cs
@@ -274,3 +275,98 @@ def r203(ctx):
                 bad.append(s['target'][:50])
         ctx.ob('R20.3', 'writer.%s:schema-objects-only-read' % q, not bad,
                'stores into the shared schema: %s' % (bad or 'none'), wr.loc(g))
+
+
+HANDLE_INIT = {'ParquetFile.__init__', 'ParquetFile._set_attrs', 'ParquetFile._parse_header', 'ParquetFile.__setstate__'}
+# loads of call-dependent attributes that do not observe the call-dependent part
+CALLDEP_LOAD_OK = {
+    ('ParquetFile.columns', 'dtypes'): 'iterates the key set only; every value stored by _dtypes has the same keys in the same order',
+}
+
+
+def _taint_at_stores(f):
+    """forward pass in source order: yields (store statement on self, is the stored value dependent on a
+    parameter other than self).  An assignment from an independent value kills the dependence of its target;
+    a subscript store under a loop or branch controlled by a dependent name makes the container dependent."""
+    params = {a.arg for a in f.args.args + f.args.kwonlyargs if a.arg != 'self'}
+    t = set(params)
+    out = []
+
+    def uses(e):
+        return any(isinstance(x, ast.Name) and x.id in t for x in ast.walk(e))
+
+    def names(tg):
+        return {x.id for x in ast.walk(tg) if isinstance(x, ast.Name)}
+
+    def visit(stmts, controlled):
+        for st in stmts:
+            if isinstance(st, (ast.FunctionDef, ast.AsyncFunctionDef, ast.ClassDef)):
+                continue
+            if isinstance(st, ast.Assign):
+                dep = uses(st.value) or controlled
+                for tg in st.targets:
+                    if isinstance(tg, ast.Attribute) and isinstance(tg.value, ast.Name) and tg.value.id == 'self':
+                        out.append((st, tg.attr, uses(st.value)))
+                    elif isinstance(tg, ast.Subscript) and isinstance(tg.value, ast.Name):
+                        if dep:
+                            t.add(tg.value.id)
+                    elif isinstance(tg, (ast.Name, ast.Tuple, ast.List)):
+                        if uses(st.value):
+                            t.update(names(tg))
+                        else:
+                            t.difference_update(names(tg) - params)
+            elif isinstance(st, ast.AugAssign):
+                if uses(st.value) or controlled:
+                    t.update(names(st.target))
+            elif isinstance(st, ast.For):
+                c = uses(st.iter)
+                if c:
+                    t.update(names(st.target))
+                visit(st.body, controlled or c)
+                visit(st.orelse, controlled)
+            elif isinstance(st, (ast.If, ast.While)):
+                c = uses(st.test)
+                visit(st.body, controlled or c)
+                visit(st.orelse, controlled or c)
+            elif isinstance(st, ast.Try):
+                visit(st.body, controlled)
+                for h in st.handlers:
+                    visit(h.body, controlled)
+                visit(st.orelse, controlled)
+                visit(st.finalbody, controlled)
+            elif isinstance(st, ast.With):
+                visit(st.body, controlled)
+    visit(f.body, False)
+    return out
+
+
+def r206(ctx):
+    """a handle attribute whose stored value depends on the arguments of one call (not only on the file) is an
+    output of that call: no read-path code may load it back from the handle, where a concurrent call with
+    other arguments may have replaced it"""
+    api = ctx.repo['api']
+    calldep = {}
+    n = 0
+    for q, f in api.funcs.items():
+        if not q.startswith('ParquetFile.') or q in HANDLE_INIT:
+            continue
+        for st, attr, dep in _taint_at_stores(f):
+            n += 1
+            if dep:
+                calldep.setdefault(attr, []).append((q, st))
+    ctx.floor('R20.6', 'per-call stores on the handle examined', n, 8)
+    ctx.stat('R20.6 call-dependent handle attributes', sorted(calldep))
+    for attr, sites in sorted(calldep.items()):
+        for q, f in api.funcs.items():
+            for x in walk_no_nested(f):
+                if isinstance(x, ast.Attribute) and x.attr == attr and isinstance(x.ctx, ast.Load) \
+                        and isinstance(x.value, ast.Name) and x.value.id in ('self', 'pf'):
+                    if (q, attr) in CALLDEP_LOAD_OK:
+                        ctx.note('R20.6 exemption %s reads self.%s: %s' % (q, attr, CALLDEP_LOAD_OK[(q, attr)]))
+                        continue
+                    ctx.ob('R20.6', 'api.%s:does-not-read-back-call-dependent-attribute:%s' % (q, attr), False,
+                           'self.%s is stored by %s from values that depend on that call\'s arguments; reading it back here '
+                           'observes whichever call stored last' % (attr, sorted({a for a, _ in sites})), api.loc(x))
+    for attr, sites in sorted(calldep.items()):
+        ctx.ob('R20.6', 'api:call-dependent-attribute-%s-is-write-only-on-the-read-path' % attr, True,
+               'stored in %s' % sorted({a for a, _ in sites}), api.loc(sites[0][1]))
